@@ -257,10 +257,7 @@ def check_handle(P, R):
                 tests = tests or [cn_]
     R.ob('C03.b', ah, (tests[0].ast if tests and tests[0].ast is not None else ah.node) if tests else ah.node, ok, text='reversed hooks inserted at 0, others appended', detail='' if ok else
          'add_hook does not prepend reversed hooks / append the others')
-    em = P.func(f'{OM}:Ombott.emit')
-    s = src(em.node)
-    ok = 'self._hooks[name][:]' in s and not any(isinstance(x, ast.Call) and dotted(x.func) in ('reversed', 'sorted', 'set') for x in ast.walk(em.node))
-    R.ob('C03.b', em, em.node, ok, text='emit iterates a copy of the hook list in order', detail='' if ok else 'emit does not iterate a copy of the list in order')
+    check_emit_snapshot(P, R, 'C03.b', 'every hook runs once, in order, whatever the hooks themselves (or other requests) do to the hook list')
 
     # ---- c: exception discipline of _handle
     outer = [t for t in ast.walk(f.node) if isinstance(t, ast.Try) and t.handlers and any('HTTPResponse' in src(h.type) for h in t.handlers if h.type)]
@@ -494,3 +491,26 @@ def check_status_setter(P, R):
                  'a status given as text is stored as the status line without having been required to contain a separator: `response.status = "404"` '
                  'makes start_response receive the status line `404` (no reason phrase) instead of failing as a 500',
                  why='start_response is called with a well-formed status line', key_extra='status-reason')
+
+
+def check_emit_snapshot(P, R, rid, why):
+    """Ombott.emit runs the hooks of a snapshot of the list (a slice copy / list() / tuple() / .copy()), in list order"""
+    em = P.func(f'{OM}:Ombott.emit')
+    its = []
+    for x in walk_shallow(em.node):
+        if isinstance(x, (ast.ListComp, ast.GeneratorExp)):
+            its += [(x, g_.iter) for g_ in x.generators]
+        elif isinstance(x, ast.For):
+            its.append((x, x.iter))
+    its = [(n_, T.expand(em, it_, em.cfg.node_of_stmt(n_)[0])) for (n_, it_) in its]
+    its = [(n_, it_) for (n_, it_) in its if '_hooks' in src(it_)]
+    R.require(its, 'Ombott.emit: iteration over the hook list not found')
+    for (n_, it_) in its:
+        snap = (isinstance(it_, ast.Subscript) and isinstance(it_.slice, ast.Slice) and it_.slice.lower is None and it_.slice.upper is None and it_.slice.step is None) or \
+            (isinstance(it_, ast.Call) and (dotted(it_.func) in ('list', 'tuple') or call_attr(it_) == 'copy'))
+        reordered = any(isinstance(y, ast.Call) and dotted(y.func) in ('reversed', 'sorted', 'set', 'frozenset') for y in ast.walk(it_))
+        ok = bool(snap) and not reordered
+        R.ob(rid, em, n_, ok, text=f'emit iterates `{short(it_)}` (a snapshot, in order)', detail='' if ok else
+             (f'emit iterates the live list `{short(it_)}`: a hook removed while the hooks run (by a hook, or by another request being served at the same time) shifts the '
+              f'iteration and the next hook is silently skipped for this request' if not reordered else 'emit does not run the hooks in list order'),
+             why=why, key_extra='emit-snapshot')
